@@ -947,8 +947,14 @@ static PyObject *uftrace_trace_python(PyObject *self, PyObject *args)
 	if (!PyArg_ParseTuple(args, "OsO", &frame, &event, &args_tuple))
 		Py_RETURN_NONE;
 
-	if (first_frame == NULL)
+	if (first_frame == NULL) {
 		first_frame = frame;
+		/*
+		 * it is compared by address below: keep the object alive so that
+		 * no later frame object can be allocated at the same address.
+		 */
+		Py_INCREF(first_frame);
+	}
 	/* skip the first frame: builtins.exec() */
 	if (skip_first_frame && frame == first_frame)
 		Py_RETURN_NONE;
